@@ -140,18 +140,25 @@ class PathProver:
         if fb is None:
             r, m = self.ex.prove(g0, extra)
         else:
-            # structurally equal designs simplify to true and small obligations are left to the solver; a large obligation that does not
-            # simplify away is first evaluated on seeded inputs (z3 does not honour its timeout reliably on deep unequal miters), then solved
+            # 1. structurally equal designs simplify to true; 2. short solver attempt in a killable child (z3 ignores its own timeout on
+            # deep unequal miters); 3. on timeout look for a counterexample by evaluating the obligation on seeded inputs; 4. long attempt
             r = None
             sg = z3.simplify(g0)
             if z3.is_true(sg):
                 r, m = 'unsat', None
-            elif term_size(sg, 300) >= 300:
-                m = fb(g0)
-                if m is not None:
-                    r = 'sat'
-            if r is None:
+            elif term_size(sg, 400) < 400:
                 r, m = self.ex.prove(g0, extra)
+            else:
+                syms = [(n, c) for n, (c, _) in CTX.symbols.items()]
+                r, vals = self.ex.prove_forked(g0, 4.0, syms)
+                m = model_from_values(vals, syms) if r == 'sat' else None
+                if r == 'unknown':
+                    m = fb(g0)
+                    if m is not None:
+                        r = 'sat'
+                    else:
+                        r, vals = self.ex.prove_forked(g0, getattr(self, 'long_limit', 60.0), syms)
+                        m = model_from_values(vals, syms) if r == 'sat' else None
         dt = time.time() - t
         if r == 'unsat':
             res['discharged'] += 1
@@ -198,6 +205,24 @@ class EvalModel:
             if s.check() == z3.sat:
                 r = s.model().eval(r, model_completion=True)
         return r
+
+
+def model_from_values(vals, syms):
+    """{symbol name: value string} (from a forked solver) -> EvalModel."""
+    pairs = []
+    for n, c in syms:
+        v = (vals or {}).get(n)
+        if v is None:
+            continue
+        if z3.is_bv(c):
+            pairs.append((c, z3.BitVecVal(int(v), c.size())))
+        elif z3.is_bool(c):
+            pairs.append((c, z3.BoolVal(v == 'True')))
+        elif c.is_int():
+            pairs.append((c, z3.IntVal(int(v))))
+        else:
+            pairs.append((c, z3.RealVal(v.replace('?', ''))))
+    return EvalModel(pairs)
 
 
 def seeded_refute(goal, inputs, axioms=(), tries=6, seed=0, timeout_ms=20000, assumptions=()):
